@@ -16,126 +16,78 @@ theorem known_tie : Generated.C17.known = Expected.C17.known := by decide
     relies on the correspondence run and the search for a failing input) -/
 theorem source_tie : Generated.C17.sourceHashes = Expected.C17.sourceHashes := by decide
 
-/-- words on which go/build's matchTag does something yaegi has no counterpart for -/
-def special (c : Ctx) (name : String) : Bool :=
-  (c.cgo && name == "cgo") || name == c.compiler ||
-  (c.goos == "android" && name == "linux") || (c.goos == "illumos" && name == "solaris") ||
-  (c.goos == "ios" && name == "darwin") || (name == "unix" && Spec.unixOS.contains c.goos) ||
-  name == "boringcrypto"
+/-- the regenerated `unixOs` table of build.go is the model's, which is the toolchain's -/
+theorem unix_tie : Generated.C17.unixOs = unixOsY := by decide
+theorem unix_is_go : unixOsY = Spec.unixOS := by decide
 
-/-- domain of the tag theorem -/
-def DomTag (c : Ctx) (t : TagName) : Prop :=
-  special c t.render = false ∧ (match t with | .rel n => 1 ≤ n | .word _ => True)
+/-- build.go matchTag is go/build matchTag (since fix c550b24), for every context and every word -/
+theorem matchTag_correct (c : Ctx) (w : String) : matchTagY c w = Spec.matchWord c w := by
+  unfold matchTagY Spec.matchWord; rw [unix_is_go]
 
-theorem tag_correct (c : Ctx) (t : TagName) (h : DomTag c t) :
-    tagOkY c t = Spec.matchTag c t := by
-  obtain ⟨hs, hn⟩ := h
-  simp only [special, Bool.or_eq_false_iff, Bool.and_eq_false_iff] at hs
-  obtain ⟨⟨⟨⟨⟨⟨h1, h2⟩, h3⟩, h4⟩, h5⟩, h6⟩, h7⟩ := hs
-  unfold tagOkY Spec.matchTag Spec.matchWord
-  cases t with
-  | word s =>
-    simp only [TagName.render] at *
-    by_cases ht : c.tags.contains s <;> by_cases hg : s == c.goos <;> by_cases ha : s == c.goarch <;>
-      simp_all <;> grind
-  | rel n =>
-    simp only [TagName.render] at *
-    by_cases ht : c.tags.contains ("go1." ++ toString n) <;>
-    by_cases hg : ("go1." ++ toString n) == c.goos <;>
-    by_cases ha : ("go1." ++ toString n) == c.goarch <;>
-      simp_all <;> grind
+/-- **buildTagOk agrees with the toolchain on every word, for every context**: ordinary words, OS and
+    architecture names, the implicit words (cgo, compiler, unix, implied OS, boringcrypto — fix c550b24)
+    and release words (go1.1 … go1.N in canonical form — fix 56f4c0c). No side condition. -/
+theorem tag_correct (c : Ctx) (t : TagName) : tagOkY c t = Spec.matchTag c t := by
+  unfold tagOkY Spec.matchTag
+  rw [matchTag_correct]
+  cases t <;> cases Spec.matchWord c _ <;> simp
 
-theorem lit_correct (c : Ctx) (l : Lit) (h : DomTag c l.name) : litOkY c l = Spec.litOk c l := by
-  unfold litOkY Spec.litOk; rw [tag_correct c l.name h]
+theorem lit_correct (c : Ctx) (l : Lit) : litOkY c l = Spec.litOk c l := by
+  unfold litOkY Spec.litOk; rw [tag_correct c l.name]
 
-/-- every word of every option of every line is in the domain -/
-def DomLines (c : Ctx) (lns : List PlusLine) : Prop :=
-  ∀ ln ∈ lns, ∀ o ∈ ln, ∀ l ∈ o, DomTag c l.name
-
-theorem opt_correct (c : Ctx) (o : Opt) (h : ∀ l ∈ o, DomTag c l.name) : optOkY c o = Spec.optOk c o := by
+theorem opt_correct (c : Ctx) (o : Opt) : optOkY c o = Spec.optOk c o := by
   unfold optOkY Spec.optOk
   induction o with
   | nil => rfl
-  | cons l ls ih =>
-    simp only [List.all_cons]
-    rw [lit_correct c l (h l (by simp)), ih (fun x hx => h x (by simp [hx]))]
+  | cons l ls ih => simp only [List.all_cons]; rw [lit_correct c l, ih]
 
-theorem line_correct (c : Ctx) (ln : PlusLine) (h : ∀ o ∈ ln, ∀ l ∈ o, DomTag c l.name) :
-    lineOkY c ln = Spec.lineOk c ln := by
-  unfold lineOkY Spec.lineOk
-  induction ln with
-  | nil => rfl
-  | cons o os ih =>
-    simp only [List.any_cons]
-    rw [opt_correct c o (h o (by simp)), ih (fun x hx => h x (by simp [hx]))]
+theorem line_correct (c : Ctx) (ln : PlusLine) : lineOkY c ln = Spec.lineOk c ln := by
+  cases ln with
+  | nil => simp only [lineOkY, Spec.lineOk]; exact tag_correct c _
+  | cons o os =>
+    simp only [lineOkY, Spec.lineOk]
+    induction (o :: os) with
+    | nil => rfl
+    | cons x xs ih => simp only [List.any_cons]; rw [opt_correct c x, ih]
 
-/-- **`// +build` evaluation agrees with the toolchain** for every context, every number of lines,
-    options and words, as long as no word is one of the toolchain's special words
-    (cgo / compiler / unix / implied OS / boringcrypto) and release words are `go1.N` with `N ≥ 1`. -/
-theorem plusbuild_lines_correct (c : Ctx) (lns : List PlusLine) (h : DomLines c lns) :
+/-- **`// +build` evaluation agrees with the toolchain** for every context and every number of lines,
+    options and words (a line without option standing for `ignore` — fix 5db3bf8). No side condition:
+    the domain of the earlier `plusbuild_lines_correct` (no special word, release words ≥ go1.1) is gone
+    with the repairs of F29 and F30. -/
+theorem plusbuild_lines_correct (c : Ctx) (lns : List PlusLine) :
     linesOkY c lns = Spec.linesOk c lns := by
   unfold linesOkY Spec.linesOk
   induction lns with
   | nil => rfl
-  | cons ln rest ih =>
-    simp only [List.all_cons]
-    rw [line_correct c ln (h ln (by simp)), ih (fun x hx => h x (by simp [hx]))]
+  | cons ln rest ih => simp only [List.all_cons]; rw [line_correct c ln, ih]
 
-/-- non-vacuity: a two-line constraint with negation, a release tag and a custom tag is in the domain,
-    and evaluates to `true` for linux/amd64/go1.22 with tag `foo` -/
+/-- non-vacuity: a two-line constraint with negation, a release tag and a custom tag
+    evaluates to `true` for linux/amd64/go1.22 with tag `foo` -/
 def ctxLinux : Ctx := { goos := "linux", goarch := "amd64", minor := 22, tags := ["foo"], cgo := true, compiler := "gc" }
 def exLines : List PlusLine :=
   [ [[⟨false, .word "linux"⟩, ⟨true, .word "arm"⟩], [⟨false, .word "windows"⟩]],
     [[⟨false, .rel 18⟩, ⟨false, .word "foo"⟩]] ]
-example : DomLines ctxLinux exLines ∧ linesOkY ctxLinux exLines = true := by
-  refine ⟨?_, by decide⟩
-  intro ln hln o ho l hl
-  simp only [exLines, List.mem_cons, List.not_mem_nil, or_false] at hln
-  rcases hln with rfl | rfl <;> simp only [List.mem_cons, List.not_mem_nil, or_false] at ho
-  · rcases ho with rfl | rfl <;> simp only [List.mem_cons, List.not_mem_nil, or_false] at hl
-    · rcases hl with rfl | rfl <;> exact ⟨by decide, trivial⟩
-    · subst hl; exact ⟨by decide, trivial⟩
-  · subst ho; simp only [List.mem_cons, List.not_mem_nil, or_false] at hl
-    rcases hl with rfl | rfl
-    · exact ⟨by decide, by decide⟩
-    · exact ⟨by decide, trivial⟩
+example : linesOkY ctxLinux exLines = true ∧ Spec.linesOk ctxLinux exLines = true := by decide
 
-/-- what the domain excludes is a real difference: `unix` on linux (part of the C17 finding list) -/
-theorem unix_tag_witness : tagOkY ctxLinux (.word "unix") = false ∧ Spec.matchTag ctxLinux (.word "unix") = true := by
-  decide
-
-/-- go1.0 is not a release tag for the toolchain, but `minor ≥ 0` for yaegi -/
-theorem release_zero_witness : tagOkY ctxLinux (.rel 0) = true ∧ Spec.matchTag ctxLinux (.rel 0) = false := by
-  decide
+/-- regression witnesses of the repaired findings: `unix`, `gc`, `cgo` on linux (F29), `go1.0` (F30),
+    a `+build` line without option (F31) now get the toolchain's answer -/
+theorem unix_tag_fixed : tagOkY ctxLinux (.word "unix") = true ∧ tagOkY ctxLinux (.word "gc") = true ∧
+    tagOkY ctxLinux (.word "cgo") = true ∧
+    tagOkY { ctxLinux with goos := "android" } (.word "linux") = true ∧
+    tagOkY { ctxLinux with goos := "windows" } (.word "unix") = false := by decide
+theorem release_zero_fixed : tagOkY ctxLinux (.rel 0) = false ∧ tagOkY ctxLinux (.rel 1) = true ∧
+    tagOkY ctxLinux (.rel 22) = true ∧ tagOkY ctxLinux (.rel 23) = false := by decide
+theorem bare_line_fixed : lineOkY ctxLinux [] = false ∧ lineOkY { ctxLinux with tags := ["ignore"] } [] = true := by decide
 
 /-! ### file names -/
 
 /-- the tables of interp/build.go are the toolchain's (go/build syslist.go) -/
 theorem tables_are_go : Expected.C17.known = ⟨Spec.knownOS, Spec.knownArch⟩ := by decide
 
-/-- contexts in which the compiler name is not itself an OS or architecture word (it is "gc") -/
-def ctxOk (c : Ctx) : Bool := !Spec.knownOS.contains c.compiler && !Spec.knownArch.contains c.compiler
-
-/-- on an OS / architecture word the toolchain's matchTag is yaegi's matchOsArch -/
-theorem matchWord_osarch (c : Ctx) (w : String) (hc : ctxOk c = true)
-    (hw : (Spec.knownOS.contains w || Spec.knownArch.contains w) = true) :
-    Spec.matchWord c w = matchOsArchY c w := by
-  have h1 : w ≠ "cgo" := by intro h; subst h; revert hw; decide
-  have h2 : w ≠ "unix" := by intro h; subst h; revert hw; decide
-  have h3 : w ≠ "boringcrypto" := by intro h; subst h; revert hw; decide
-  have h4 : w ≠ c.compiler := by
-    intro h; subst h
-    simp only [ctxOk, Bool.and_eq_true, Bool.not_eq_true'] at hc
-    rw [hc.1, hc.2] at hw
-    exact absurd hw (by decide)
-  unfold Spec.matchWord matchOsArchY
-  simp [h1, h2, h3, h4]
-  by_cases a1 : w = c.goos <;> by_cases a2 : w = c.goarch <;> simp [a1, a2] <;> grind
-
-/-- **The file-name rule is the toolchain's**, for every context (with an ordinary compiler name),
-    every name and both settings of `skipTest`: no side condition on the name. -/
-theorem name_rule_correct (c : Ctx) (isTest : Bool) (elems : List String) (skipTest : Bool)
-    (hc : ctxOk c = true) :
+/-- **The file-name rule is the toolchain's**, for every context, every name and both settings of
+    `skipTest`: no side condition on the name, and (since skipFile uses the complete matchTag, fix c550b24)
+    none on the context. -/
+theorem name_rule_correct (c : Ctx) (isTest : Bool) (elems : List String) (skipTest : Bool) :
     skipElemsY Expected.C17.known c isTest elems skipTest = !Spec.selectedElems c isTest elems skipTest := by
   rw [tables_are_go]
   unfold skipElemsY Spec.selectedElems Spec.goodOSArch
@@ -152,7 +104,7 @@ theorem name_rule_correct (c : Ctx) (isTest : Bool) (elems : List String) (skipT
       | [y] =>
         simp only []
         cases hy : (Spec.knownOS.contains y || Spec.knownArch.contains y) with
-        | true => simp only [if_true]; rw [matchWord_osarch c y hc hy]
+        | true => simp only [if_true]; rw [matchTag_correct]
         | false => simp
       | y :: x :: _ =>
         simp only []
@@ -160,22 +112,21 @@ theorem name_rule_correct (c : Ctx) (isTest : Bool) (elems : List String) (skipT
         | true =>
           simp only [if_true]
           rw [Bool.and_eq_true] at hxy
-          rw [matchWord_osarch c y hc (by rw [hxy.2, Bool.or_true]), matchWord_osarch c x hc (by rw [hxy.1, Bool.true_or])]
+          rw [matchTag_correct, matchTag_correct]
         | false =>
           simp only [Bool.false_eq_true, if_false]
           cases hy : (Spec.knownOS.contains y || Spec.knownArch.contains y) with
-          | true => simp only [if_true]; rw [matchWord_osarch c y hc hy]
+          | true => simp only [if_true]; rw [matchTag_correct]
           | false => simp
 
 /-- … and therefore for the tables regenerated from the current source (`known_tie`) -/
-theorem name_rule_generated (c : Ctx) (isTest : Bool) (elems : List String) (skipTest : Bool)
-    (hc : ctxOk c = true) :
+theorem name_rule_generated (c : Ctx) (isTest : Bool) (elems : List String) (skipTest : Bool) :
     skipElemsY Generated.C17.known c isTest elems skipTest = !Spec.selectedElems c isTest elems skipTest := by
-  rw [known_tie]; exact name_rule_correct c isTest elems skipTest hc
+  rw [known_tie]; exact name_rule_correct c isTest elems skipTest
 
 /-- non-vacuity and regression witnesses: the inputs of the repaired findings F18, F19, F32, F34 now
     get the toolchain's answer -/
-example : ctxOk ctxLinux = true ∧
+example :
     skipElemsY Expected.C17.known ctxLinux false ["foo", "bar", "windows"] true = true ∧
     skipElemsY Expected.C17.known ctxLinux false ["e", "zos"] true = true ∧
     skipElemsY Expected.C17.known ctxLinux false ["e", "riscv64"] true = true ∧
@@ -185,23 +136,17 @@ example : ctxOk ctxLinux = true ∧
 
 /-- **`//go:build` expressions are evaluated as the toolchain evaluates them** (since fix e527178: buildOk
     parses the line with go/build/constraint and evaluates every word with buildTagOk), for every
-    context and every expression whose words are in the tag domain. -/
-def DomExpr (c : Ctx) : GExpr → Prop
-  | .tag t => DomTag c t
-  | .not e => DomExpr c e
-  | .and a b => DomExpr c a ∧ DomExpr c b
-  | .or a b => DomExpr c a ∧ DomExpr c b
-
-theorem gobuild_expr_correct (c : Ctx) (e : GExpr) (h : DomExpr c e) : e.evalY c = Spec.evalG c e := by
+    context and every expression — no side condition on the words since the repairs of F29 and F30. -/
+theorem gobuild_expr_correct (c : Ctx) (e : GExpr) : e.evalY c = Spec.evalG c e := by
   induction e with
-  | tag t => simp only [GExpr.evalY, Spec.evalG]; exact tag_correct c t h
-  | not e ih => simp only [GExpr.evalY, Spec.evalG, ih h]
-  | and a b iha ihb => simp only [GExpr.evalY, Spec.evalG, iha h.1, ihb h.2]
-  | or a b iha ihb => simp only [GExpr.evalY, Spec.evalG, iha h.1, ihb h.2]
+  | tag t => simp only [GExpr.evalY, Spec.evalG]; exact tag_correct c t
+  | not e ih => simp only [GExpr.evalY, Spec.evalG, ih]
+  | and a b iha ihb => simp only [GExpr.evalY, Spec.evalG, iha, ihb]
+  | or a b iha ihb => simp only [GExpr.evalY, Spec.evalG, iha, ihb]
 
-/-- non-vacuity: `linux && !arm || go1.18 && foo` is in the domain and true for linux/amd64/go1.22 + foo -/
-example : DomExpr ctxLinux (.or (.and (.tag (.word "linux")) (.not (.tag (.word "arm")))) (.and (.tag (.rel 18)) (.tag (.word "foo")))) ∧
-    (GExpr.or (.and (.tag (.word "linux")) (.not (.tag (.word "arm")))) (.and (.tag (.rel 18)) (.tag (.word "foo")))).evalY ctxLinux = true := by
-  refine ⟨⟨⟨⟨by decide, trivial⟩, ⟨by decide, trivial⟩⟩, ⟨⟨by decide, by decide⟩, ⟨by decide, trivial⟩⟩⟩, by decide⟩
+/-- non-vacuity: `linux && !arm || go1.18 && foo`, and `unix && gc && !go1.0`, are true for linux/amd64/go1.22 + foo -/
+example :
+    (GExpr.or (.and (.tag (.word "linux")) (.not (.tag (.word "arm")))) (.and (.tag (.rel 18)) (.tag (.word "foo")))).evalY ctxLinux = true ∧
+    (GExpr.and (.tag (.word "unix")) (.and (.tag (.word "gc")) (.not (.tag (.rel 0))))).evalY ctxLinux = true := by decide
 
 end YaegiVerif.Props.C17
